@@ -4,7 +4,9 @@ R1: Pipeline.tla (goroutines, channels, queue sizes, flusher hand-over) composed
     broken design (Reset as a second round) must be refuted.
 R2: PipelineSched.tla stimulus schedules (offers, ticks, gates at ReceiveMap / Flush / before Reset / backend callback).
 S2: harness c01 drives the real parser -> tag stage -> BackendHandler -> aggregators -> flusher chain in a synctest bubble.
-R3: ConservationTrace.tla judges the recorded trace."""
+R3: ConservationTrace.tla judges the recorded trace.
+Stage (socket side): rcvstage -- Receiver.tla / ReceiverSched.tla schedules through the real DatagramReceiver + parsers over an in-memory
+    socket, judged by ReceiverTrace.tla (clauses Garbled / AtMostOnce / Lost)."""
 import json
 import os
 import vlib
